@@ -353,6 +353,25 @@ var hostileNaturals = [][]byte{
 	{0x81, 0x00}, {0x80, 0x01}, {0xC0, 0x01, 0x00}, {0xFF, 1, 0, 0, 0, 0, 0, 0, 0},
 }
 
+// wrapNaturals: 9-byte encodings of 2^e and 2^e+1 (e = 56..63) and of ceil(2^64/k) for a few element sizes k.
+var wrapNaturals = func() [][]byte {
+	var vals []uint64
+	for e := uint(56); e <= 63; e++ {
+		vals = append(vals, 1<<e, 1<<e+1)
+	}
+	for _, k := range []uint64{3, 5, 6, 12, 33, 36, 44, 65, 96, 144, 336} {
+		vals = append(vals, ^uint64(0)/k+1)
+	}
+	out := make([][]byte, len(vals))
+	for i, v := range vals {
+		b := make([]byte, 9)
+		b[0] = 0xFF
+		binary.LittleEndian.PutUint64(b[1:], v)
+		out[i] = b
+	}
+	return out
+}()
+
 func mutate(r vh.R, b []byte) []byte {
 	out := append([]byte(nil), b...)
 	for n := 1 + r.IntN(2); n > 0; n-- {
@@ -371,6 +390,9 @@ func mutate(r vh.R, b []byte) []byte {
 			}
 		case 3, 4: // a hostile or non-minimal natural number over the bytes at a random position
 			nat := hostileNaturals[r.IntN(len(hostileNaturals))]
+			if r.IntN(3) == 0 {
+				nat = wrapNaturals[r.IntN(len(wrapNaturals))]
+			}
 			p := 0
 			if len(out) > 0 {
 				p = r.IntN(len(out))
@@ -468,6 +490,18 @@ func driveUntrusted(h *vh.H, strict, safe bool) {
 					}
 				}
 				h.Inc("encodings_perturbed_at_every_byte")
+			}
+			// a length prefix whose product with an element size wraps around 64 bits (2^56..2^63 and their successors, ceil(2^64/k) for
+			// element sizes that are not powers of two) written over every position of a short encoding: whichever byte is a
+			// sequence length gets each of them
+			if len(enc) <= 64 && k%4 == 3 {
+				for p := range enc {
+					for _, nat := range wrapNaturals {
+						x := append(append(append([]byte(nil), enc[:p]...), nat...), enc[p+1:]...)
+						inputs = append(inputs, x)
+					}
+				}
+				h.Inc("encodings_with_wrapping_length_prefixes_at_every_byte")
 			}
 			for ii, in := range inputs {
 				if safe {
